@@ -36,8 +36,27 @@ def clock_funcs(ctx):
     return m, out
 
 
+def scheduler_attr_types(repo):
+    """attribute name -> class name for every `<x>.<attr>_scheduler = <Class>(...)` in the repository (the receiver of a
+    `.._scheduler.method()` call is typed by the constructor assigned to that attribute, not by its spelling)"""
+    out = {}
+    for mod in repo.modules.values():
+        for n in ast.walk(mod.tree):
+            if isinstance(n, ast.Assign) and isinstance(n.value, ast.Call):
+                for t in n.targets:
+                    if isinstance(t, ast.Attribute) and t.attr.endswith('_scheduler'):
+                        out.setdefault(t.attr, set()).add(norm(n.value.func).split('.')[-1])
+    return out
+
+
 def make_resolver(ctx):
     m = ctx.repo.module('sc3.base.clock')
+    sch_types = scheduler_attr_types(ctx.repo)
+
+    def sched_class(recv):
+        # only the RT Scheduler (AppClock's) is in scope; ClockScheduler is the single-threaded NRT queue
+        types = sch_types.get(recv.split('.')[-1], set())
+        return m.classes['Scheduler'] if types == {'Scheduler'} else None
 
     def resolve(node, caller):
         cname = caller.qualname.split('.')[0]
@@ -49,13 +68,13 @@ def make_resolver(ctx):
                 r = ctx.repo.resolve_method(ci, name)
                 return [r] if r is not None and r.module is m else []
             if recv.endswith('_scheduler'):
-                sch = m.classes['Scheduler']
-                return [sch.methods[name]] if name in sch.methods else []
+                sch = sched_class(recv)
+                return [sch.methods[name]] if sch is not None and name in sch.methods else []
         if isinstance(node, ast.Attribute) and isinstance(node.ctx, ast.Store):
             recv = norm(node.value)
             if recv.endswith('_scheduler'):
-                sch = m.classes['Scheduler']
-                return [sch.setters[node.attr]] if node.attr in sch.setters else []
+                sch = sched_class(recv)
+                return [sch.setters[node.attr]] if sch is not None and node.attr in sch.setters else []
             if recv == 'self' and ci is not None and node.attr in ci.setters:
                 return [ci.setters[node.attr]]
         return []
@@ -473,3 +492,13 @@ MUTANTS = [
 ]
 
 REPAIRS = []
+
+# behaviour-preserving (for C08) edits that must stay silent
+EQUIV = [
+    dict(name='NRT-only queue method with the name of an RT helper is called without a lock', file='sc3/base/clock.py',
+         old="            _libsc3.main._clock_scheduler.clear(self)\n            return\n",
+         new="            _libsc3.main._clock_scheduler.clear(self)\n            _libsc3.main._clock_scheduler.clear(self)\n            return\n"),
+    dict(name='tempo setter delegates its notify to a helper', file='sc3/base/clock.py',
+         old="        # en tempo_\n        mdl.NotificationCenter.notify(self, 'tempo')\n        if self.mode == _libsc3.main.NRT_MODE:\n            _libsc3.main._clock_scheduler.rekey(self)\n        else:\n            with self._sched_cond:\n                self._sched_cond.notify()  # NOTE: is notify_one in C++.\n\n    def etempo",
+         new="        # en tempo_\n        mdl.NotificationCenter.notify(self, 'tempo')\n        self._map_changed()\n\n    def _map_changed(self):\n        if self.mode == _libsc3.main.NRT_MODE:\n            _libsc3.main._clock_scheduler.rekey(self)\n        else:\n            with self._sched_cond:\n                self._sched_cond.notify()  # NOTE: is notify_one in C++.\n\n    def etempo"),
+]
